@@ -10,7 +10,8 @@ RULE = ('sentences (n 1-5 quick / 1-7 thorough) with dyadic, log-softmax and fla
         '(left-headed) and Japanese (right-headed) rule functions with and without seen-rule filtering; random root '
         'sets, unary penalty, pruning size and beta; oracle = exhaustive chart DP over the beam-admitted tags + '
         'observation of every agenda pop through the guarded hook; non-trivial = n >= 2 and the oracle sees >= 2 '
-        'complete derivations with different scores; distinct by case digest')
+        'complete derivations with different scores; distinct by case digest. The premise "as both shipped grammars do" '
+        'is swept: every result for every shipped seen-rule pair has its grammar\'s one head direction')
 
 
 @runner.guarded(PROPERTY)
@@ -34,7 +35,27 @@ def check_case(case, info=None):
     return fails
 
 
+@runner.guarded(PROPERTY)
+def check_head_uniform(lang, x, y):
+    """'as both shipped grammars do': every result of a shipped grammar has that grammar's one head direction"""
+    from depccg.grammar import en, ja
+    from vlib.model_cat import canon, from_json, to_cat
+    mod = en if lang == 'en' else ja
+    mx, my = from_json(x), from_json(y)
+    want = lang == 'en'
+    fails = []
+    for r in mod.apply_binary_rules(to_cat(mx), to_cat(my)):
+        if bool(r.head_is_left) is not want:
+            fails.append((f'{PROPERTY}/shipped-grammar-not-head-uniform/{lang}',
+                          f'{lang}: {canon(mx)} {canon(my)} => {r.cat} [{r.op_string} {r.op_symbol}] has head_is_left='
+                          f'{r.head_is_left}; every other rule of this grammar has {want} (the search keeps one item per '
+                          'span and category, which is only sound when all rules share one head direction)'))
+    return fails
+
+
 def replay(case):
+    if case.get('kind') == 'head-uniform':
+        return check_head_uniform(case['lang'], case['x'], case['y'])
     native.setup()
     return check_case(case)
 
@@ -50,6 +71,19 @@ def build_case(data, mode, deep=False):
 
 def _shard(ctx, shard, nshards):
     native.setup()
+    # the statement's premise about the shipped grammars: sweep every seen-rule pair of both grammars
+    from vlib import gen_tree
+    from vlib.model_cat import jsonable
+    k = 0
+    for lang in ('en', 'ja'):
+        for (mx, my) in gen_tree.rule_index(lang).pairs:
+            k += 1
+            if k % nshards != shard:
+                continue
+            case = {'kind': 'head-uniform', 'lang': lang, 'x': jsonable(mx), 'y': jsonable(my)}
+            fails = check_head_uniform(lang, case['x'], case['y'])
+            ctx.case(['head-uniform', lang, k], True, cls=f'shipped-grammar-head-direction/{lang}')
+            ctx.report_direct(fails, case)
     for mode, n_examples, size in (('table', ctx.scale(1200, 20000), 800), ('real', ctx.scale(100, 1500), 900)):
         def factory(mode=mode, n_examples=n_examples, size=size):
             @seed(runner.hseed(ctx, 1 if mode == 'table' else 101))
